@@ -122,6 +122,12 @@ def run(ctx):
     trace_order(ctx)
     delay(ctx)
     verbatim(ctx, text_lo, by_off)
+    # the exporter takes every trace from get_trace(i): its addresses, decodes and crops (rules of C02) in every layout
+    ctx.rule('C06.7', 'exported samples are the decoded ones: get_trace addresses, decodes and crops canonically in every layout mode')
+    from .. import layoutrules as LR
+    recs = [r for r in LR.collect(ctx.shared) if r.entry.name == 'get_trace']
+    LR.report(ctx, recs, {'L1': 'C06.7', 'DEC': 'C06.7', 'L3': 'C06.7', 'L4': 'C06.7'})
+    ctx.floor('C06.7', 6, 'reads / decodes / crops on the get_trace path')
 
 
 def header_last(ctx, ht, lo, hi):
